@@ -13,6 +13,21 @@ ENGINES = [
 ]
 
 CHECKS = [
+    {"id": "C02", "engine": "E3 algebraic value numbering",
+     "technique": "normal-form comparison of each conversion with the stated matrix expression (callees opaque); exhaustive sign-pattern evaluation of the QR normalisation",
+     "text": "Each of u_to_ubi, ubi_to_cell, ubi_to_u, ubi_to_u_b, ubi_to_rod (both modules) is evaluated with opaque callees and "
+             "must equal the expression the property states (where tau sits, rows of UBI passed as columns, transposition); "
+             "ub_to_u_b is evaluated on all 8 sign patterns of the triangular factor's diagonal and must return (Q D, D R). The "
+             "round trips are the paper consequence of these shapes plus C01; numerical accuracy of qr/inv is not decided.",
+     "note": "Trusted: numpy.linalg.qr/inv contracts; C01; CPython ast."},
+    {"id": "C13", "engine": "E3 algebraic value numbering",
+     "technique": "entry-wise verification that the back-substituted matrix solves the stated equation (normal forms); literal formula match; convention check of the arguments",
+     "text": "For symbolic strain and symbolic unstrained matrix, the triangular matrices built by epsilon_to_b and epsilon_to_b_old "
+             "are shown to satisfy sym(B0 X) = eps + I resp. sym(X A0inv) = eps + I entry by entry (hence for every cell and "
+             "strain) and to reduce to the unstrained matrix at zero strain; b_to_epsilon(_old) equal sym(T) - I in the stated "
+             "order; ubi_to_u_and_eps returns the stated U and must pass on the strained B of the module's own UBI convention. "
+             "Mutual inversion is the paper consequence (unique triangular solution).",
+     "note": "Trusted: form_b_mat/form_a_mat_inv upper triangular (C01); numpy dot/inv/eye. One known finding (tools, tau)."},
     {"id": "C09", "engine": "E3 algebraic value numbering",
      "technique": "substitution of the returned (omega, eta) expressions into the module's own rotation-matrix builder; identity of normal forms",
      "text": "For all four solvers in both modules the expressions returned for omega and eta are inserted into the rotation "
